@@ -230,6 +230,8 @@ pub fn run_enum(e: &WireEngine, ctx: &Ctx) {
                 FK::UnionMismatch,
                 FK::UnionReorder,
                 FK::NumberOutOfRange,
+                FK::MissingField,
+                FK::LeafCorrupt,
                 FK::Oversize,
                 FK::ByteFlip,
             ]
@@ -250,6 +252,8 @@ pub fn run_enum(e: &WireEngine, ctx: &Ctx) {
                 FK::UnionMismatch,
                 FK::UnionReorder,
                 FK::NumberOutOfRange,
+                FK::MissingField,
+                FK::LeafCorrupt,
                 FK::ByteFlip,
             ]
         };
